@@ -72,7 +72,7 @@ impl Input {
     }
 }
 
-pub const BIG_CLASSES: [&str; 10] = ["many-words", "many-numbers", "hyphen-chain", "compound", "dash-run", "space-run", "apostrophes", "digits-run", "zero-run", "scale-run"];
+pub const BIG_CLASSES: [&str; 11] = ["many-words", "many-numbers", "hyphen-chain", "compound", "dash-run", "space-run", "apostrophes", "digits-run", "zero-run", "scale-run", "plain-words"];
 
 fn big_input(code: &str, class: &str, size: usize) -> String {
     let info = spell::info(code);
@@ -107,6 +107,8 @@ fn big_input(code: &str, class: &str, size: usize) -> String {
             let scale = spell::cardinal(code, 1000).split(' ').last().unwrap_or("").to_string();
             format!("{} {}", unit, vec![scale.as_str(); size].join(" "))
         }
+        // a long stretch with no number at all (twenty times the nominal size, at most 600 000 words: it is cheap, and a frame of recursion per token only shows at such lengths), one number at the very end
+        "plain-words" => format!("{} {}", vec!["xyz"; (size * 20).min(600_000)].join(" "), unit),
         "dash-run" => "-".repeat(size),
         "space-run" => " \t\u{a0}".repeat(size / 3 + 1),
         "apostrophes" => format!("{}{}", "l'".repeat(size / 2), unit),
@@ -172,7 +174,9 @@ pub fn exercise(api: &dyn crate::api::Api, s: &str, t: f64, rng_bits: u64) -> Op
     std::hint::black_box((&r, &occs));
     // caller-made tokens: split on whitespace, lower-case copy sometimes NOT lower-case, random hints
     let mut toks: Vec<IdTok> = Vec::new();
-    for (i, w) in s.split_whitespace().take(20_000).enumerate() {
+    // (the stream entry points are quadratic in the number of occurrences: cap the stream unless the text has few of them)
+    let cap = if occs.len() < 100 { 1_000_000 } else { 20_000 };
+    for (i, w) in s.split_whitespace().take(cap).enumerate() {
         let mut tk = IdTok::new(i as u64, w);
         let bits = rng_bits.rotate_left((i % 61) as u32);
         if bits & 7 == 0 {
@@ -479,6 +483,7 @@ fn run_leg(ctx: &Ctx, rep: &mut Report, spec: &LegSpec) {
     let mk = |trace: bool| -> Command {
         let mut c = Command::new(&bin);
         c.args(["worker", "c03", &ctx.seed.to_string(), &spec.n_cases.to_string(), if spec.big { "1" } else { "0" }, &spec.big_max.to_string(), if trace { tmp.as_str() } else { "-" }, &format!("C03-{}", spec.name), &result]);
+        c.env("VERIF_STACK_MB", "8");
         c.env("VERIF_DIR", &ctx.verif_dir).env("T2N_C03_SLOW_FILE", &slow).env("VERIF_CHILD_BUDGET_S", format!("{}", spec.timeout_s.saturating_sub(30).max(20)));
         c.env("ASAN_OPTIONS", "halt_on_error=1:abort_on_error=1:detect_leaks=0");
         c
